@@ -536,3 +536,881 @@ Proof.
   rewrite SR at 2. rewrite (fmass_set_liq n) by assumption.
   rewrite T, VR, MWeq. unfold target, water_target. field. split; assumption.
 Qed.
+
+Lemma water_target_nonneg n mws R w mc mw :
+  wf_strm n R -> length mws = n ->
+  0 <= mc < 1 -> 0 < mw -> nthq mws w == mw ->
+  (forall i, 0 <= nthq (liq R) i) -> (forall i, 0 <= nthq (oth R) i) -> (forall i, 0 <= nthq mws i) ->
+  0 <= water_target mws R w mc mw.
+Proof.
+  intros WR LM MC MW MWeq NL NO NM.
+  assert (TN : forall i, 0 <= nthq (total R) i).
+  { intros i. rewrite (total_nth n) by exact WR. specialize (NL i). specialize (NO i). lra. }
+  assert (D : 0 <= fmass mws R - mw * nthq (total R) w).
+  { unfold fmass. destruct WR as [A B].
+    pose proof (vdot_ge_term (total R) mws w) as G.
+    assert (LT : length (total R) = length mws).
+    { unfold total. rewrite vadd_length; congruence. }
+    specialize (G LT TN NM). rewrite MWeq in G. lra. }
+  unfold water_target.
+  set (d := fmass mws R - mw * nthq (total R) w) in *.
+  assert (E : d * mc / (1 - mc) / mw == d * mc * / (1 - mc) * / mw) by (field; split; lra).
+  rewrite E.
+  assert (I1 : 0 <= / (1 - mc)) by (apply Qinv_le_0_compat; lra).
+  assert (I2 : 0 <= / mw) by (apply Qinv_le_0_compat; lra).
+  assert (DM : 0 <= d * mc) by (apply Qmult_le_0_compat; lra).
+  apply Qmult_le_0_compat; [apply Qmult_le_0_compat|]; assumption.
+Qed.
+
+Lemma moisture_nonneg_lemma n mws R P w mc (by_mass : bool) mwc strict :
+  wf_strm n R -> wf_strm n P -> length mws = n -> (w < n)%nat ->
+  0 <= mc < 1 ->
+  let mw := if by_mass then nthq mws w else mwc in
+  0 < mw -> nthq mws w == mw ->
+  (forall i, 0 <= nthq (liq R) i) -> (forall i, 0 <= nthq (oth R) i) -> nthq (oth R) w == 0 ->
+  (forall i, 0 <= nthq (liq P) i) -> (forall i, 0 <= nthq mws i) ->
+  let m := adjust_moisture mws R P w mc by_mass mwc strict in
+  m_err m = None ->
+  forall i, 0 <= nthq (liq (m_ret m)) i /\ 0 <= nthq (liq (m_perm m)) i.
+Proof.
+  intros WR WP LM W MC mw MWpos MWeq NL NO OW NP NM m OK i.
+  destruct (Nat.eq_dec i w) as [->|Hi].
+  2:{ destruct (moisture_frame_lemma mws R P w mc by_mass mwc strict) as (_ & _ & FR).
+      destruct (FR i Hi) as [A B]. fold m in A, B. rewrite A, B. split; [apply NL|apply NP]. }
+  assert (MC0 : ~ 1 - mc == 0) by lra.
+  assert (MW0 : ~ mw == 0) by lra.
+  destruct (moisture_shift_values n mws R P w mc by_mass mwc WR WP W MC0 MW0) as (VR & VP & SR & SP).
+  fold mw in VR, VP.
+  pose proof (water_target_nonneg n mws R w mc mw WR LM MC MWpos MWeq NL NO NM) as TG.
+  assert (TW : nthq (total R) w == nthq (liq R) w).
+  { rewrite (total_nth n) by exact WR. lra. }
+  revert OK. unfold m, adjust_moisture.
+  destruct (qzerob (1 - mc)) eqn:E; [apply qzerob_true in E; contradiction|].
+  destruct (moisture_shift mws R P w mc by_mass mwc) as [R1 P1] eqn:ES. cbn [fst snd] in *.
+  destruct WR as [WR1 WR2], WP as [WP1 WP2].
+  assert (L1 : length (liq R1) = n) by (rewrite SR, liq_set_liq, upd_length; exact WR1).
+  assert (L2 : length (liq P1) = n) by (rewrite SP, liq_set_liq, upd_length; exact WP1).
+  destruct (qltb (nthq (liq P1) w) 0) eqn:E1.
+  - destruct (match strict with Some b => b | None => true end); cbn [m_err m_ret m_perm]; [discriminate|].
+    intros _. rewrite !liq_set_liq. rewrite !nthq_upd_same_lt by lia.
+    specialize (NL w). specialize (NP w). split; lra.
+  - apply qltb_false in E1. cbn [m_err m_ret m_perm]. intros _. split; [|exact E1].
+    rewrite VR, TW. lra.
+Qed.
+
+Lemma wf_single n v : length v = n -> wf_strm n (single v).
+Proof. intros H. split; simpl; [exact H|rewrite vzero_length; exact H]. Qed.
+
+Lemma total_single v i : nthq (total (single v)) i == nthq v i.
+Proof.
+  rewrite (total_nth (length v)) by (apply wf_single; reflexivity).
+  simpl. rewrite nthq_vzero. lra.
+Qed.
+
+Lemma mix_split_lengths n ins split :
+  (forall v, In v ins -> length v = n) -> length split = n ->
+  length (fst (mix_and_split n ins split)) = n /\ length (snd (mix_and_split n ins split)) = n.
+Proof.
+  intros Hl Hs. unfold mix_and_split, split_to; simpl.
+  assert (L : length (vsum n ins) = n) by (apply vsum_length; exact Hl).
+  split; [rewrite vmul_length; lia | rewrite vsub_length; [lia | rewrite vmul_length; lia]].
+Qed.
+
+Lemma mix_moisture_conserves_lemma n mws ins split w mc by_mass mwc strict :
+  (forall v, In v ins -> length v = n) -> length split = n -> (w < n)%nat ->
+  (by_mass = true -> ~ nthq mws w == 0) ->
+  let m := mix_and_split_with_moisture n mws ins split w mc by_mass mwc strict in
+  forall i, nthq (total (m_ret m)) i + nthq (total (m_perm m)) i == colsum ins i.
+Proof.
+  intros Hl Hs W MW m i. unfold m, mix_and_split_with_moisture.
+  pose proof (mix_split_conserves_lemma n ins split Hl Hs i) as C.
+  destruct (mix_split_lengths n ins split Hl Hs) as [L1 L2].
+  destruct (mix_and_split n ins split) as [top bottom]. cbn [fst snd] in *.
+  rewrite (moisture_conserves_lemma n mws (single top) (single bottom) w mc by_mass mwc strict
+             (wf_single n top L1) (wf_single n bottom L2) W MW i).
+  rewrite !total_single. exact C.
+Qed.
+
+(* ================================================================ phase_split, chemical_splits *)
+
+Lemma map2_fst_id {A B} (a : list A) (b : list B) : length b = length a -> map2 (fun r _ => r) a b = a.
+Proof.
+  revert b; induction a as [|x a IH]; intros [|y b] H; simpl in *; try discriminate; auto.
+  f_equal. apply IH. lia.
+Qed.
+
+Lemma phase_split_routes_lemma rows outs0 outs :
+  phase_split rows outs0 = Ok outs -> outs = rows /\ length outs0 = length rows.
+Proof.
+  unfold phase_split. destruct (Nat.eqb_spec (length outs0) (length rows)) as [E|E]; [|discriminate].
+  intros H; inversion H; subst. split; [apply map2_fst_id; exact E|exact E].
+Qed.
+
+Lemma phase_split_err_lemma rows outs0 e :
+  phase_split rows outs0 = Err e -> e = ERuntime /\ length outs0 <> length rows.
+Proof.
+  unfold phase_split. destruct (Nat.eqb_spec (length outs0) (length rows)) as [E|E]; [discriminate|].
+  intros H; inversion H; auto.
+Qed.
+
+Lemma splits_map2_nth (a m : vec) i : length a = length m ->
+  ~ nthq m i == 0 ->
+  nthq (map2 (fun x y => if qzerob x || qzerob y then 0 else x / y) a m) i * nthq m i == nthq a i.
+Proof.
+  intros L NZ. revert m i L NZ; induction a as [|x a IH]; intros [|y m] i L NZ; simpl in *; try discriminate.
+  - rewrite !nthq_nil. lra.
+  - destruct i as [|i].
+    + rewrite !nthq_cons0 in *.
+      destruct (qzerob x) eqn:E1; simpl.
+      * apply qzerob_true in E1. lra.
+      * destruct (qzerob y) eqn:E2; [apply qzerob_true in E2; contradiction|].
+        apply qzerob_false in E2. field. exact E2.
+    + rewrite !nthq_consS in *. apply IH; [lia|exact NZ].
+Qed.
+
+Definition mixed_of (a : vec) (b mixed : option vec) : option vec :=
+  match mixed with Some m => Some m | None => match b with Some b => Some (vadd a b) | None => None end end.
+
+Lemma chemical_splits_value_lemma heur a b mixed s m :
+  chemical_splits heur a b mixed = Ok s -> mixed_of a b mixed = Some m -> length a = length m ->
+  forall i, ~ nthq m i == 0 -> nthq s i * nthq m i == nthq a i.
+Proof.
+  unfold chemical_splits, mixed_of.
+  destruct mixed as [m'|]; [|destruct b as [b'|]]; intros H M L i NZ; try discriminate;
+    inversion M; subst m; clear M.
+  - destruct (if heur then _ else _); [discriminate|]. inversion H; subst s.
+    apply splits_map2_nth; auto.
+  - destruct (if heur then _ else _); [discriminate|]. inversion H; subst s.
+    apply splits_map2_nth; auto.
+Qed.
+
+(* with b given and both streams non-negative the mixed flow is zero only where a is *)
+Lemma chemical_splits_zero_lemma heur a b mixed s :
+  chemical_splits heur a b mixed = Ok s -> forall i, nthq a i == 0 -> nthq s i == 0.
+Proof.
+  unfold chemical_splits.
+  assert (G : forall (a m : vec) i, nthq a i == 0 ->
+             nthq (map2 (fun x y => if qzerob x || qzerob y then 0 else x / y) a m) i == 0).
+  { clear. induction a as [|x a IH]; intros [|y m] i H; simpl; rewrite ?nthq_nil; try lra.
+    destruct i as [|i].
+    - rewrite nthq_cons0 in *. apply qzerob_true in H. rewrite H. simpl. lra.
+    - rewrite nthq_consS in *. apply IH; exact H. }
+  destruct mixed as [m'|]; [|destruct b as [b'|]]; intros H i Z; try discriminate.
+  - destruct (if heur then _ else _); [discriminate|]. inversion H; subst s. apply G; exact Z.
+  - destruct (if heur then _ else _); [discriminate|]. inversion H; subst s. apply G; exact Z.
+Qed.
+
+(* ================================================================ partition *)
+
+Definition nonneg (v : vec) : Prop := forall i, 0 <= nthq v i.
+Definition bounded (feed v : vec) : Prop := forall i, 0 <= nthq v i <= nthq feed i.
+
+Lemma bounded_upd feed v i x : bounded feed v -> 0 <= x <= nthq feed i -> bounded feed (upd v i x).
+Proof.
+  intros B X j. rewrite nthq_upd.
+  destruct (Nat.eqb_spec i j) as [->|N]; simpl; [|apply B].
+  destruct (Nat.ltb j (length v)); [exact X|apply B].
+Qed.
+
+Lemma scatter_bounded feed v idx vals :
+  bounded feed v ->
+  (forall k, (k < length idx)%nat -> (k < length vals)%nat -> 0 <= nthq vals k <= nthq feed (nth k idx 0%nat)) ->
+  bounded feed (scatter v idx vals).
+Proof.
+  revert v vals; induction idx as [|i idx IH]; intros v [|x vals] B H; simpl; auto.
+  apply IH.
+  - apply bounded_upd; [exact B|]. specialize (H 0%nat). simpl in H. rewrite nthq_cons0 in H. apply H; lia.
+  - intros k K1 K2. specialize (H (S k)). simpl in H. rewrite nthq_consS in H. apply H; lia.
+Qed.
+
+Lemma scatter_c_bounded feed v idx : bounded feed v -> nonneg feed -> bounded feed (scatter_c v idx 0).
+Proof.
+  revert v; induction idx as [|i idx IH]; intros v B N; simpl; auto.
+  apply IH; [|exact N]. apply bounded_upd; [exact B|]. specialize (N i). lra.
+Qed.
+
+Lemma scatter_gather_bounded feed v idx : bounded feed v -> nonneg feed -> bounded feed (scatter v idx (gather feed idx)).
+Proof.
+  intros B N. apply scatter_bounded; [exact B|].
+  intros k K1 K2. rewrite nthq_gather by exact K1. specialize (N (nth k idx 0%nat)). lra.
+Qed.
+
+Lemma scatter_gather_in feed v idx j :
+  In j idx -> (j < length v)%nat -> nthq (scatter v idx (gather feed idx)) j = nthq feed j.
+Proof.
+  revert v; induction idx as [|i idx IH]; intros v H B; simpl in *; [contradiction|].
+  destruct (in_dec Nat.eq_dec j idx) as [Hin|Hnin].
+  - apply IH; auto. rewrite upd_length; exact B.
+  - destruct H as [E|H]; [subst i|contradiction].
+    rewrite scatter_other by exact Hnin. apply nthq_upd_same_lt; exact B.
+Qed.
+
+Lemma forced_spec feed dst other idx d' o' F :
+  forced feed dst other idx = (d', o', F) ->
+  length d' = length dst /\ length o' = length other /\
+  (bounded feed dst -> nonneg feed -> bounded feed d') /\
+  (bounded feed other -> nonneg feed -> bounded feed o') /\
+  F = forced_sum feed idx /\
+  (forall j, ~ In j idx -> nthq d' j = nthq dst j /\ nthq o' j = nthq other j) /\
+  (forall j, In j idx -> (j < length dst)%nat -> (j < length other)%nat ->
+             nthq d' j = nthq feed j /\ nthq o' j = 0).
+Proof.
+  unfold forced, forced_sum. destruct idx as [|i idx].
+  - intros H; inversion H; subst. split; [reflexivity|]. split; [reflexivity|]. split; [auto|]. split; [auto|].
+    split; [reflexivity|]. split; [intros j _; split; reflexivity | intros j []].
+  - remember (i :: idx) as I eqn:EI. clear EI. intros H. injection H as <- <- <-.
+    split; [apply scatter_length|]. split; [apply scatter_c_length|].
+    split; [apply scatter_gather_bounded|]. split; [apply scatter_c_bounded|].
+    split; [reflexivity|]. split.
+    + intros j Hj. split; [apply scatter_other|apply scatter_c_other]; exact Hj.
+    + intros j Hj B1 B2. split; [apply scatter_gather_in|apply scatter_c_in]; assumption.
+Qed.
+
+Lemma nthq_map (f : Q -> Q) l k : (k < length l)%nat -> nthq (map f l) k = f (nthq l k).
+Proof.
+  revert k; induction l as [|x l IH]; intros [|k] H; simpl in *; try lia; try reflexivity.
+  rewrite !nthq_consS. apply IH. lia.
+Qed.
+
+Lemma nthq_bottom_flows z K phi F k : length z = length K -> (k < length z)%nat ->
+  nthq (bottom_flows z K phi F) k = nthq z k / (phi * nthq K k + (1 - phi)) * (1 - phi) * F.
+Proof.
+  unfold bottom_flows.
+  revert K k; induction z as [|x z IH]; intros [|y K] k L H; simpl in *; try lia.
+  destruct k as [|k].
+  - rewrite !nthq_cons0. reflexivity.
+  - rewrite !nthq_consS. apply IH; lia.
+Qed.
+
+Lemma bottom_flows_length z K phi F : length z = length K -> length (bottom_flows z K phi F) = length z.
+Proof.
+  intros L. unfold bottom_flows. rewrite map_length.
+  rewrite map2_length; [reflexivity|]. rewrite map_length. exact L.
+Qed.
+
+Lemma qsum_gather_nonneg feed idx : nonneg feed -> 0 <= qsum (gather feed idx).
+Proof.
+  intros N. induction idx as [|i idx IH]; simpl; [lra|]. specialize (N i). lra.
+Qed.
+
+Lemma gather_nonneg feed idx : nonneg feed -> nonneg (gather feed idx).
+Proof.
+  intros N k. destruct (Nat.lt_ge_cases k (length idx)) as [H|H].
+  - rewrite nthq_gather by exact H. apply N.
+  - rewrite nthq_overflow by (rewrite gather_length; exact H). lra.
+Qed.
+
+Section Partition.
+Variable pf : vec -> vec -> Q -> Q -> Q.
+
+(* every normal return has top = feed - bottom, computed on vectors of the feed's length *)
+Lemma partition_ok_shape feed top0 bot0 ids K topc botc strict phi :
+  let r := partition pf feed top0 bot0 ids K topc botc strict in
+  p_phi r = Ok phi ->
+  p_top r = vsub feed (p_bot r) /\ length (p_bot r) = length bot0 /\ 0 <= phi <= 1.
+Proof.
+  cbv zeta. unfold partition.
+  destruct (forced feed top0 bot0 topc) as [[top1 bot1] Fa] eqn:F1.
+  destruct (forced feed bot1 top1 botc) as [[bot2 top2] Fb] eqn:F2.
+  destruct (forced_spec _ _ _ _ _ _ _ F1) as (_ & L1 & _).
+  destruct (forced_spec _ _ _ _ _ _ _ F2) as (L2 & _).
+  destruct (qzerob _); cbn [p_phi p_top p_bot]; [discriminate|].
+  destruct (qleb _ 0) eqn:E1; cbn [p_phi p_top p_bot].
+  - intros H; inversion H; subst. rewrite scatter_length. repeat split; try lra; congruence.
+  - destruct (qltb _ 1) eqn:E2.
+    + destruct (existsb qzerob _); cbn [p_phi]; [discriminate|].
+      destruct (c_err _); cbn [p_phi p_top p_bot]; [discriminate|].
+      intros H; inversion H; subst. rewrite scatter_length.
+      apply qleb_false in E1. apply qltb_true in E2. repeat split; try lra; congruence.
+    + cbn [p_phi p_top p_bot]. intros H; inversion H; subst. rewrite scatter_c_length.
+      repeat split; try lra; congruence.
+Qed.
+
+Lemma partition_conserves_lemma feed top0 bot0 ids K topc botc strict phi :
+  length feed = length bot0 ->
+  let r := partition pf feed top0 bot0 ids K topc botc strict in
+  p_phi r = Ok phi ->
+  forall i, nthq (p_top r) i + nthq (p_bot r) i == nthq feed i.
+Proof.
+  intros L r H i.
+  destruct (partition_ok_shape feed top0 bot0 ids K topc botc strict phi H) as (T & LB & _).
+  fold r in T, LB. rewrite T. rewrite nthq_vsub by congruence. lra.
+Qed.
+
+Lemma partition_bounded_lemma feed top0 bot0 ids K topc botc strict phi :
+  nonneg feed -> bounded feed bot0 ->
+  let r := partition pf feed top0 bot0 ids K topc botc strict in
+  p_phi r = Ok phi -> bounded feed (p_bot r).
+Proof.
+  intros N B. cbv zeta. unfold partition.
+  destruct (forced feed top0 bot0 topc) as [[top1 bot1] Fa] eqn:F1.
+  destruct (forced feed bot1 top1 botc) as [[bot2 top2] Fb] eqn:F2.
+  destruct (forced_spec _ _ _ _ _ _ _ F1) as (_ & _ & _ & B1 & _).
+  destruct (forced_spec _ _ _ _ _ _ _ F2) as (_ & _ & B2 & _).
+  specialize (B2 (B1 B N) N).
+  destruct (qzerob _); cbn [p_phi p_bot]; [discriminate|].
+  destruct (qleb _ 0); cbn [p_phi p_bot].
+  - intros _. apply scatter_gather_bounded; assumption.
+  - destruct (qltb _ 1).
+    + destruct (existsb qzerob _); cbn [p_phi]; [discriminate|].
+      match goal with |- context [handle_infeasible ?bm ?mol strict] =>
+        pose proof (clip_range_lemma bm mol strict (gather_nonneg feed ids N)) as CR;
+        destruct (c_err (handle_infeasible bm mol strict)) eqn:EC end;
+        cbn [p_phi p_bot]; [discriminate|].
+      intros _. specialize (CR eq_refl). apply scatter_bounded; [exact B2|].
+      intros k K1 K2. specialize (CR k). rewrite nthq_gather in CR by exact K1. exact CR.
+    + cbn [p_phi p_bot]. intros _. apply scatter_c_bounded; assumption.
+Qed.
+
+Lemma partition_nonneg_lemma feed top0 bot0 ids K topc botc strict phi :
+  length feed = length bot0 -> nonneg feed -> bounded feed bot0 ->
+  let r := partition pf feed top0 bot0 ids K topc botc strict in
+  p_phi r = Ok phi ->
+  forall i, 0 <= nthq (p_top r) i /\ 0 <= nthq (p_bot r) i <= nthq feed i.
+Proof.
+  intros L N B r H i.
+  pose proof (partition_bounded_lemma feed top0 bot0 ids K topc botc strict phi N B H i) as BB.
+  pose proof (partition_conserves_lemma feed top0 bot0 ids K topc botc strict phi L H i) as C.
+  fold r in BB, C. lra.
+Qed.
+End Partition.
+
+Section PartitionK.
+Variable pf : vec -> vec -> Q -> Q -> Q.
+
+(* with non-negative K and feed nothing is clipped *)
+Lemma bottom_flows_feasible feed ids K phi F :
+  nonneg feed -> length K = length ids -> (forall k, 0 <= nthq K k) ->
+  0 < phi < 1 -> ~ F == 0 ->
+  forall k, 0 <= nthq (bottom_flows (vdivs (gather feed ids) F) K phi F) k <= nthq (gather feed ids) k.
+Proof.
+  intros N LK NK PH F0 k.
+  destruct (Nat.lt_ge_cases k (length ids)) as [H|H].
+  - rewrite nthq_bottom_flows by (rewrite vdivs_length, gather_length; lia).
+    rewrite nthq_vdivs.
+    set (m := nthq (gather feed ids) k).
+    assert (M : 0 <= m) by (apply gather_nonneg; exact N).
+    set (d := phi * nthq K k + (1 - phi)).
+    assert (D : 1 - phi <= d) by (unfold d; specialize (NK k); nra).
+    assert (E : m / F / d * (1 - phi) * F == m * ((1 - phi) / d)) by (field; split; lra).
+    rewrite E.
+    assert (Q0 : 0 <= (1 - phi) / d) by (apply Qle_shift_div_l; lra).
+    assert (Q1 : (1 - phi) / d <= 1) by (apply Qle_shift_div_r; lra).
+    split; nra.
+  - rewrite !nthq_overflow; try lra.
+    + rewrite gather_length; exact H.
+    + rewrite bottom_flows_length; rewrite vdivs_length, gather_length; lia.
+Qed.
+
+Lemma partition_K_cross_lemma feed top0 bot0 ids K topc botc strict phi :
+  length feed = length bot0 -> nonneg feed ->
+  NoDup ids -> (forall i, In i ids -> (i < length bot0)%nat) ->
+  length K = length ids -> (forall k, 0 <= nthq K k) ->
+  let r := partition pf feed top0 bot0 ids K topc botc strict in
+  p_phi r = Ok phi -> 0 < phi < 1 ->
+  p_warns r = 0%nat /\
+  forall k, (k < length ids)%nat ->
+    (1 - phi) * nthq (p_top r) (nth k ids 0%nat) == phi * nthq K k * nthq (p_bot r) (nth k ids 0%nat).
+Proof.
+  intros L N ND IB LK NK r H PH.
+  pose proof (partition_conserves_lemma pf feed top0 bot0 ids K topc botc strict phi L H) as C.
+  fold r in C. revert H C. unfold r, partition. clear r.
+  destruct (forced feed top0 bot0 topc) as [[top1 bot1] Fa] eqn:F1.
+  destruct (forced feed bot1 top1 botc) as [[bot2 top2] Fb] eqn:F2.
+  destruct (forced_spec _ _ _ _ _ _ _ F1) as (_ & L1 & _).
+  destruct (forced_spec _ _ _ _ _ _ _ F2) as (L2 & _).
+  set (F := qsum (gather feed ids) + (Fa + Fb)).
+  destruct (qzerob F) eqn:EF; cbn [p_phi]; [discriminate|]. apply qzerob_false in EF.
+  set (ph := pf (vdivs (gather feed ids) F) K (Fa / F) (Fb / F)).
+  destruct (qleb ph 0) eqn:E1; cbn [p_phi].
+  { intros H; inversion H; subst; lra. }
+  destruct (qltb ph 1) eqn:E2; cbn [p_phi].
+  2:{ intros H; inversion H; subst; lra. }
+  destruct (existsb qzerob _); cbn [p_phi]; [discriminate|].
+  apply qleb_false in E1. apply qltb_true in E2.
+  pose proof (bottom_flows_feasible feed ids K ph F N LK NK (conj E1 E2) EF) as FE.
+  rewrite (clip_feasible_id_lemma _ (gather feed ids) strict) by
+      (try exact FE; rewrite bottom_flows_length; rewrite vdivs_length, gather_length; lia).
+  cbn [c_err c_arr c_warns p_phi p_top p_bot p_warns].
+  intros H C. inversion H; subst phi. split; [reflexivity|].
+  intros k Hk. specialize (C (nth k ids 0%nat)).
+  set (bm := bottom_flows (vdivs (gather feed ids) F) K ph F) in *.
+  assert (BK : nthq (scatter bot2 ids bm) (nth k ids 0%nat) = nthq bm k).
+  { apply scatter_nth; auto.
+    - unfold bm. rewrite bottom_flows_length; rewrite vdivs_length, gather_length; lia.
+    - intros i Hi. rewrite L2, L1. apply IB; exact Hi. }
+  rewrite BK in *.
+  assert (BV : nthq bm k == nthq feed (nth k ids 0%nat) * (1 - ph) / (ph * nthq K k + (1 - ph))).
+  { unfold bm. rewrite nthq_bottom_flows by (rewrite vdivs_length, gather_length; lia).
+    rewrite nthq_vdivs, nthq_gather by exact Hk.
+    assert (0 <= nthq K k) by apply NK. field. split; [nra|exact EF]. }
+  assert (T : nthq (vsub feed (scatter bot2 ids bm)) (nth k ids 0%nat) == nthq feed (nth k ids 0%nat) - nthq bm k) by lra.
+  rewrite T, BV. assert (0 <= nthq K k) by apply NK. field. nra.
+Qed.
+
+Lemma ratio_alg t b K phi T B :
+  (1 - phi) * t == phi * K * b -> ~ b == 0 -> ~ T == 0 -> ~ B == 0 -> ~ 1 - phi == 0 ->
+  (t / T) / (b / B) == K * (phi * B / ((1 - phi) * T)).
+Proof.
+  intros H Hb HT HB Hp.
+  assert (E : t == phi * K * b / (1 - phi)).
+  { apply (Qmult_inj_r _ _ (1 - phi)); [exact Hp|].
+    transitivity (phi * K * b); [rewrite <- H; ring | field; exact Hp]. }
+  rewrite E. field. repeat split; assumption.
+Qed.
+
+(* mole fractions over the equilibrium chemicals: y_k / x_k = K_k * c with one common factor c *)
+Lemma partition_K_lemma feed top0 bot0 ids K topc botc strict phi :
+  length feed = length bot0 -> nonneg feed ->
+  NoDup ids -> (forall i, In i ids -> (i < length bot0)%nat) ->
+  length K = length ids -> (forall k, 0 <= nthq K k) ->
+  let r := partition pf feed top0 bot0 ids K topc botc strict in
+  p_phi r = Ok phi -> 0 < phi < 1 ->
+  let T := qsum (gather (p_top r) ids) in
+  let B := qsum (gather (p_bot r) ids) in
+  ~ T == 0 -> ~ B == 0 ->
+  forall k, (k < length ids)%nat -> ~ nthq (p_bot r) (nth k ids 0%nat) == 0 ->
+    (nthq (p_top r) (nth k ids 0%nat) / T) / (nthq (p_bot r) (nth k ids 0%nat) / B)
+    == nthq K k * (phi * B / ((1 - phi) * T)).
+Proof.
+  intros L N ND IB LK NK r H PH T B HT HB k Hk Hb.
+  destruct (partition_K_cross_lemma feed top0 bot0 ids K topc botc strict phi L N ND IB LK NK H PH) as [_ X].
+  fold r in X. apply ratio_alg; auto. lra.
+Qed.
+End PartitionK.
+
+(* ================================================================ Rachford-Rice root => exact K *)
+
+Definition St (z K : vec) (phi : Q) : Q := qsum (map2 (fun z k => z * k / (phi * k + (1 - phi))) z K).
+Definition Sb (z K : vec) (phi : Q) : Q := qsum (map2 (fun z k => z / (phi * k + (1 - phi))) z K).
+
+Lemma nonneg_Forall (l : vec) : (forall k, 0 <= nthq l k) -> Forall (fun x => 0 <= x) l.
+Proof.
+  induction l as [|x l IH]; intros H; constructor.
+  - exact (H 0%nat).
+  - apply IH. intros k. exact (H (S k)).
+Qed.
+
+Lemma St_Sb_identity z K phi : length z = length K -> 0 < phi < 1 -> Forall (fun x => 0 <= x) K ->
+  phi * St z K phi + (1 - phi) * Sb z K phi == qsum z.
+Proof.
+  unfold St, Sb. revert K; induction z as [|x z IH]; intros [|k K] L PH FK; simpl in *; try (exfalso; discriminate L).
+  - lra.
+  - inversion FK as [|? ? K0 FK']; subst.
+    specialize (IH K ltac:(lia) PH FK').
+    assert (D : 0 < phi * k + (1 - phi)) by nra.
+    set (a := qsum (map2 (fun z k => z * k / (phi * k + (1 - phi))) z K)) in *.
+    set (b := qsum (map2 (fun z k => z / (phi * k + (1 - phi))) z K)) in *.
+    assert (E : phi * (x * k / (phi * k + (1 - phi)) + a) + (1 - phi) * (x / (phi * k + (1 - phi)) + b)
+                == x + (phi * a + (1 - phi) * b)) by (field; lra).
+    rewrite E, IH. lra.
+Qed.
+
+Lemma rr_sum_alt z K phi : length z = length K -> 0 < phi < 1 -> Forall (fun x => 0 <= x) K ->
+  qsum (map2 Qdiv (map2 (fun z km => - z * km) z (map (fun k => k - 1) K))
+                  (map (fun km => 1 + phi * km) (map (fun k => k - 1) K)))
+  == - (St z K phi - Sb z K phi).
+Proof.
+  unfold St, Sb. revert K; induction z as [|x z IH]; intros [|k K] L PH FK; simpl in *; try (exfalso; discriminate L).
+  - lra.
+  - inversion FK as [|? ? K0 FK']; subst.
+    specialize (IH K ltac:(lia) PH FK').
+    assert (D : 0 < phi * k + (1 - phi)) by nra.
+    rewrite IH.
+    set (a := qsum (map2 (fun z k => z * k / (phi * k + (1 - phi))) z K)).
+    set (b := qsum (map2 (fun z k => z / (phi * k + (1 - phi))) z K)).
+    field; repeat split; lra.
+Qed.
+
+Lemma rr_objective_alt z K phi za zb : length z = length K -> 0 < phi < 1 -> Forall (fun x => 0 <= x) K ->
+  0 <= za -> 0 <= zb ->
+  rr_objective phi z K za zb == - (St z K phi - Sb z K phi) - za / phi + zb / (1 - phi).
+Proof.
+  intros L PH FK ZA ZB. unfold rr_objective. rewrite rr_sum_alt by assumption.
+  assert (A : (if qltb 0 za then za / phi else 0) == za / phi).
+  { destruct (qltb 0 za) eqn:E; [reflexivity|]. apply qltb_false in E.
+    assert (Z : za == 0) by lra. rewrite Z. field. lra. }
+  assert (B : (if qltb 0 zb then zb / (1 - phi) else 0) == zb / (1 - phi)).
+  { destruct (qltb 0 zb) eqn:E; [reflexivity|]. apply qltb_false in E.
+    assert (Z : zb == 0) by lra. rewrite Z. field. lra. }
+  rewrite A, B. reflexivity.
+Qed.
+
+Lemma qsum_vdivs v F : ~ F == 0 -> qsum (vdivs v F) == qsum v / F.
+Proof.
+  intros H. unfold vdivs. induction v as [|x v IH]; simpl.
+  - field. exact H.
+  - rewrite IH. field. exact H.
+Qed.
+
+Lemma qsum_bottom_flows z K phi F : length z = length K -> 0 < phi < 1 -> Forall (fun x => 0 <= x) K ->
+  qsum (bottom_flows z K phi F) == (1 - phi) * F * Sb z K phi.
+Proof.
+  unfold bottom_flows, Sb. revert K; induction z as [|x z IH]; intros [|k K] L PH FK; simpl in *;
+    try (exfalso; discriminate L).
+  - lra.
+  - inversion FK as [|? ? K0 FK']; subst.
+    specialize (IH K ltac:(lia) PH FK'). rewrite IH.
+    assert (D : 0 < phi * k + (1 - phi)) by nra.
+    set (b := qsum (map2 (fun z k => z / (phi * k + (1 - phi))) z K)).
+    field. lra.
+Qed.
+
+Lemma qsum_ext (a b : vec) : length a = length b -> (forall k, (k < length a)%nat -> nthq a k == nthq b k) ->
+  qsum a == qsum b.
+Proof.
+  revert b; induction a as [|x a IH]; intros [|y b] L H; simpl in *; try (exfalso; discriminate L).
+  - lra.
+  - pose proof (H 0%nat ltac:(lia)) as H0. rewrite !nthq_cons0 in H0.
+    rewrite (IH b); [lra|lia|]. intros k Hk. specialize (H (S k) ltac:(lia)). rewrite !nthq_consS in H. exact H.
+Qed.
+
+Lemma qsum_gather_add (a b c : vec) idx : (forall i, nthq a i + nthq b i == nthq c i) ->
+  qsum (gather a idx) + qsum (gather b idx) == qsum (gather c idx).
+Proof.
+  intros H. induction idx as [|i idx IH]; simpl; [lra|]. specialize (H i). lra.
+Qed.
+
+Section PartitionRoot.
+Variable pf : vec -> vec -> Q -> Q -> Q.
+
+(* If the value returned by the solver is a root of the Rachford-Rice residual, the phase totals over the
+   equilibrium + forced chemicals are phi F and (1 - phi) F. *)
+Lemma partition_root_totals feed top0 bot0 ids K topc botc strict phi :
+  length feed = length bot0 -> nonneg feed ->
+  NoDup ids -> (forall i, In i ids -> (i < length bot0)%nat) ->
+  length K = length ids -> (forall k, 0 <= nthq K k) ->
+  let r := partition pf feed top0 bot0 ids K topc botc strict in
+  p_phi r = Ok phi -> 0 < phi < 1 ->
+  let Fa := forced_sum feed topc in
+  let Fb := forced_sum feed botc in
+  let F := qsum (gather feed ids) + (Fa + Fb) in
+  rr_objective phi (vdivs (gather feed ids) F) K (Fa / F) (Fb / F) == 0 ->
+  qsum (gather (p_top r) ids) + Fa == phi * F /\
+  qsum (gather (p_bot r) ids) + Fb == (1 - phi) * F.
+Proof.
+  intros L N ND IB LK NK r H PH Fa Fb F RR.
+  pose proof (partition_conserves_lemma pf feed top0 bot0 ids K topc botc strict phi L H) as C.
+  fold r in C.
+  pose proof (qsum_gather_add (p_top r) (p_bot r) feed ids C) as SUM.
+  assert (FK : Forall (fun x => 0 <= x) K) by (apply nonneg_Forall; exact NK).
+  assert (FA : 0 <= Fa) by (apply qsum_gather_nonneg; exact N).
+  assert (FB : 0 <= Fb) by (apply qsum_gather_nonneg; exact N).
+  assert (F0 : 0 <= qsum (gather feed ids)) by (apply qsum_gather_nonneg; exact N).
+  (* the bottom flows of the equilibrium chemicals *)
+  assert (BOT : qsum (gather (p_bot r) ids) == (1 - phi) * F * Sb (vdivs (gather feed ids) F) K phi /\ ~ F == 0).
+  { revert H. unfold r, partition.
+    destruct (forced feed top0 bot0 topc) as [[top1 bot1] Fa'] eqn:F1.
+    destruct (forced feed bot1 top1 botc) as [[bot2 top2] Fb'] eqn:F2.
+    destruct (forced_spec _ _ _ _ _ _ _ F1) as (_ & L1 & _ & _ & EA & _).
+    destruct (forced_spec _ _ _ _ _ _ _ F2) as (L2 & _ & _ & _ & EB & _).
+    subst Fa' Fb'. fold Fa Fb F.
+    destruct (qzerob F) eqn:EF; cbn [p_phi]; [discriminate|]. apply qzerob_false in EF.
+    set (ph := pf (vdivs (gather feed ids) F) K (Fa / F) (Fb / F)).
+    destruct (qleb ph 0) eqn:E1; cbn [p_phi].
+    { intros H; inversion H; subst; lra. }
+    destruct (qltb ph 1) eqn:E2; cbn [p_phi].
+    2:{ intros H; inversion H; subst; lra. }
+    destruct (existsb qzerob _); cbn [p_phi]; [discriminate|].
+    apply qleb_false in E1. apply qltb_true in E2.
+    pose proof (bottom_flows_feasible feed ids K ph F N LK NK (conj E1 E2) EF) as FE.
+    rewrite (clip_feasible_id_lemma _ (gather feed ids) strict) by
+        (try exact FE; rewrite bottom_flows_length; rewrite vdivs_length, gather_length; lia).
+    cbn [c_err c_arr c_warns p_phi p_top p_bot p_warns].
+    intros H. inversion H; subst phi. split; [|exact EF].
+    set (bm := bottom_flows (vdivs (gather feed ids) F) K ph F).
+    assert (LB : length bm = length ids).
+    { unfold bm. rewrite bottom_flows_length; rewrite vdivs_length, gather_length; lia. }
+    rewrite (qsum_ext (gather (scatter bot2 ids bm) ids) bm).
+    - unfold bm. apply qsum_bottom_flows; auto. rewrite vdivs_length, gather_length; lia.
+    - rewrite gather_length; lia.
+    - intros k Hk. rewrite gather_length in Hk. rewrite nthq_gather by exact Hk.
+      rewrite scatter_nth; auto; try reflexivity.
+      intros i Hi. rewrite L2, L1. apply IB; exact Hi. }
+  destruct BOT as [BOT FNZ].
+  assert (FP : 0 < F) by (unfold F in *; lra).
+  set (z := vdivs (gather feed ids) F) in *.
+  assert (LZ : length z = length K) by (unfold z; rewrite vdivs_length, gather_length; lia).
+  rewrite (rr_objective_alt z K phi (Fa / F) (Fb / F) LZ PH FK) in RR
+    by (apply Qle_shift_div_l; lra).
+  pose proof (St_Sb_identity z K phi LZ PH FK) as ID.
+  assert (SZ : qsum z == qsum (gather feed ids) / F) by (unfold z; apply qsum_vdivs; exact FNZ).
+  set (st := St z K phi) in *. set (sb := Sb z K phi) in *.
+  (* sb = 1 - zb/(1-phi) *)
+  assert (SBV : (1 - phi) * F * sb == (1 - phi) * F - Fb).
+  { assert (E1 : qsum z == 1 - Fa / F - Fb / F).
+    { rewrite SZ. unfold F. field. exact FNZ. }
+    assert (E2 : st == sb - Fa / F / phi + Fb / F / (1 - phi)).
+    { set (u := Fa / F / phi) in *. set (v := Fb / F / (1 - phi)) in *. lra. }
+    rewrite E2 in ID.
+    assert (E3 : phi * (sb - Fa / F / phi + Fb / F / (1 - phi)) + (1 - phi) * sb
+                 == sb - Fa / F + phi * (Fb / F / (1 - phi))) by (field; repeat split; lra).
+    rewrite E3, E1 in ID.
+    assert (E4 : sb == 1 - Fb / F / (1 - phi)).
+    { assert (Y : phi * (Fb / F / (1 - phi)) == Fb / F / (1 - phi) - Fb / F) by (field; repeat split; lra).
+      rewrite Y in ID.
+      set (a := Fa / F) in *. set (b := Fb / F) in *. set (c := b / (1 - phi)) in *. lra. }
+    rewrite E4. field. split; lra. }
+  split.
+  - assert (G : qsum (gather feed ids) == F - Fa - Fb) by (unfold F; lra).
+    lra.
+  - lra.
+Qed.
+End PartitionRoot.
+
+Section PartitionExact.
+Variable pf : vec -> vec -> Q -> Q -> Q.
+
+(* root of the Rachford-Rice residual: mole fractions over equilibrium + forced chemicals give K exactly *)
+Lemma partition_K_exact_lemma feed top0 bot0 ids K topc botc strict phi :
+  length feed = length bot0 -> nonneg feed ->
+  NoDup ids -> (forall i, In i ids -> (i < length bot0)%nat) ->
+  length K = length ids -> (forall k, 0 <= nthq K k) ->
+  let r := partition pf feed top0 bot0 ids K topc botc strict in
+  p_phi r = Ok phi -> 0 < phi < 1 ->
+  let Fa := forced_sum feed topc in
+  let Fb := forced_sum feed botc in
+  let F := qsum (gather feed ids) + (Fa + Fb) in
+  rr_objective phi (vdivs (gather feed ids) F) K (Fa / F) (Fb / F) == 0 ->
+  let T := qsum (gather (p_top r) ids) + Fa in
+  let B := qsum (gather (p_bot r) ids) + Fb in
+  T == phi * F /\ B == (1 - phi) * F /\
+  forall k, (k < length ids)%nat -> ~ nthq (p_bot r) (nth k ids 0%nat) == 0 ->
+    (nthq (p_top r) (nth k ids 0%nat) / T) / (nthq (p_bot r) (nth k ids 0%nat) / B) == nthq K k.
+Proof.
+  intros L N ND IB LK NK r H PH Fa Fb F RR T B.
+  destruct (partition_root_totals pf feed top0 bot0 ids K topc botc strict phi L N ND IB LK NK H PH RR) as [TT BB].
+  fold r Fa Fb F in TT, BB. fold T in TT. fold B in BB.
+  split; [exact TT|]. split; [exact BB|].
+  intros k Hk Hb.
+  destruct (partition_K_cross_lemma pf feed top0 bot0 ids K topc botc strict phi L N ND IB LK NK H PH) as [_ X].
+  fold r in X. specialize (X k Hk).
+  assert (FNZ : ~ F == 0).
+  { revert H. unfold r, partition.
+    destruct (forced feed top0 bot0 topc) as [[top1 bot1] Fa'] eqn:F1.
+    destruct (forced feed bot1 top1 botc) as [[bot2 top2] Fb'] eqn:F2.
+    destruct (forced_spec _ _ _ _ _ _ _ F1) as (_ & _ & _ & _ & EA & _).
+    destruct (forced_spec _ _ _ _ _ _ _ F2) as (_ & _ & _ & _ & EB & _).
+    subst Fa' Fb'. fold Fa Fb F.
+    destruct (qzerob F) eqn:EF; cbn [p_phi]; [discriminate|]. intros _. apply qzerob_false; exact EF. }
+  rewrite (ratio_alg _ _ (nthq K k) phi T B X Hb).
+  - rewrite TT, BB. field. repeat split; lra.
+  - rewrite TT. intros E. apply FNZ. nra.
+  - rewrite BB. intros E. apply FNZ. nra.
+  - lra.
+Qed.
+
+(* forced chemicals end up where they were sent; untouched chemicals of the bottom are left alone *)
+Lemma partition_forced_lemma feed top0 bot0 ids K topc botc strict phi :
+  length feed = length bot0 -> length top0 = length bot0 ->
+  let r := partition pf feed top0 bot0 ids K topc botc strict in
+  p_phi r = Ok phi ->
+  (forall j, In j botc -> ~ In j ids -> (j < length bot0)%nat ->
+     nthq (p_bot r) j == nthq feed j /\ nthq (p_top r) j == 0) /\
+  (forall j, In j topc -> ~ In j botc -> ~ In j ids -> (j < length bot0)%nat ->
+     nthq (p_bot r) j == 0 /\ nthq (p_top r) j == nthq feed j) /\
+  (forall j, ~ In j topc -> ~ In j botc -> ~ In j ids ->
+     nthq (p_bot r) j == nthq bot0 j /\ nthq (p_top r) j == nthq feed j - nthq bot0 j).
+Proof.
+  intros L LT r H.
+  pose proof (partition_conserves_lemma pf feed top0 bot0 ids K topc botc strict phi L H) as C. fold r in C.
+  assert (G : forall j, ~ In j ids ->
+     (In j botc -> (j < length bot0)%nat -> nthq (p_bot r) j = nthq feed j) /\
+     (In j topc -> ~ In j botc -> (j < length bot0)%nat -> nthq (p_bot r) j = 0) /\
+     (~ In j topc -> ~ In j botc -> nthq (p_bot r) j = nthq bot0 j)).
+  { intros j NI. revert H. unfold r, partition.
+    destruct (forced feed top0 bot0 topc) as [[top1 bot1] Fa] eqn:F1.
+    destruct (forced feed bot1 top1 botc) as [[bot2 top2] Fb] eqn:F2.
+    destruct (forced_spec _ _ _ _ _ _ _ F1) as (L1a & L1 & _ & _ & _ & O1 & I1).
+    destruct (forced_spec _ _ _ _ _ _ _ F2) as (L2 & _ & _ & _ & _ & O2 & I2).
+    assert (B2 : (In j botc -> (j < length bot0)%nat -> nthq bot2 j = nthq feed j) /\
+                 (In j topc -> ~ In j botc -> (j < length bot0)%nat -> nthq bot2 j = 0) /\
+                 (~ In j topc -> ~ In j botc -> nthq bot2 j = nthq bot0 j)).
+    { split; [|split].
+      - intros Hb Hj. apply I2; [exact Hb| |]; congruence.
+      - intros Ht Hnb Hj. destruct (O2 j Hnb) as [E _]. rewrite E. apply I1; [exact Ht| |]; congruence.
+      - intros Hnt Hnb. destruct (O2 j Hnb) as [E _]. rewrite E. apply O1; exact Hnt. }
+    destruct (qzerob _); cbn [p_phi p_bot]; [discriminate|].
+    destruct (qleb _ 0); cbn [p_phi p_bot].
+    - intros _. rewrite scatter_other by exact NI. exact B2.
+    - destruct (qltb _ 1).
+      + destruct (existsb qzerob _); cbn [p_phi]; [discriminate|].
+        destruct (c_err _); cbn [p_phi p_bot]; [discriminate|].
+        intros _. rewrite scatter_other by exact NI. exact B2.
+      + cbn [p_phi p_bot]. intros _. rewrite scatter_c_other by exact NI. exact B2. }
+  split; [|split].
+  - intros j Hb NI Hj. destruct (G j NI) as (A & _ & _). specialize (C j). rewrite (A Hb Hj) in *. split; lra.
+  - intros j Ht Hnb NI Hj. destruct (G j NI) as (_ & A & _). specialize (C j). rewrite (A Ht Hnb Hj) in *. split; lra.
+  - intros j Hnt Hnb NI. destruct (G j NI) as (_ & _ & A). specialize (C j). rewrite (A Hnt Hnb) in *. split; lra.
+Qed.
+
+(* separations.phase_fraction returns what partition returns *)
+Lemma phase_fraction_agrees_lemma feed top0 bot0 ids K topc botc strict :
+  fst (phase_fraction pf feed ids K topc botc strict) = p_phi (partition pf feed top0 bot0 ids K topc botc strict)
+  /\ snd (phase_fraction pf feed ids K topc botc strict) = p_warns (partition pf feed top0 bot0 ids K topc botc strict).
+Proof.
+  unfold phase_fraction, partition.
+  destruct (forced feed top0 bot0 topc) as [[top1 bot1] Fa] eqn:F1.
+  destruct (forced feed bot1 top1 botc) as [[bot2 top2] Fb] eqn:F2.
+  destruct (forced_spec _ _ _ _ _ _ _ F1) as (_ & _ & _ & _ & EA & _).
+  destruct (forced_spec _ _ _ _ _ _ _ F2) as (_ & _ & _ & _ & EB & _).
+  subst Fa Fb.
+  destruct (qzerob _); [split; reflexivity|].
+  destruct (qleb _ 0); [split; reflexivity|].
+  destruct (qltb _ 1); [|split; reflexivity].
+  destruct (existsb qzerob _); [split; reflexivity|].
+  destruct (c_err _); split; reflexivity.
+Qed.
+End PartitionExact.
+
+(* ================================================================ lle / vle wrappers *)
+
+Lemma eff_mix_lemma rho eq extra feed top0 bot0 topchem eff rowL rowl :
+  eq feed = (rowL, rowl) -> length rowL = length feed -> length rowl = length feed ->
+  let r := lle_wrap rho eq extra feed top0 bot0 topchem eff in
+  e_err r = None ->
+  forall i, nthq (e_top r) i + nthq (e_bot r) i ==
+            if qltb eff 1 then eff * (nthq rowL i + nthq rowl i) + (1 - eff) * nthq feed i
+            else nthq rowL i + nthq rowl i.
+Proof.
+  intros E LL Ll. cbv zeta. unfold lle_wrap. rewrite E.
+  destruct (negb (Nat.eqb extra 0)); cbn [e_err]; [discriminate|].
+  intros _ i.
+  destruct (top_is_l rho rowL rowl topchem); destruct (qltb eff 1); cbn [e_top e_bot];
+    rewrite ?nthq_vadd by (rewrite !vscale_length; congruence); rewrite ?nthq_vscale; try lra; field.
+Qed.
+
+Lemma lle_conserves_lemma rho eq extra feed top0 bot0 topchem eff rowL rowl :
+  eq feed = (rowL, rowl) -> length rowL = length feed -> length rowl = length feed ->
+  (forall i, nthq rowL i + nthq rowl i == nthq feed i) ->
+  let r := lle_wrap rho eq extra feed top0 bot0 topchem eff in
+  e_err r = None ->
+  forall i, nthq (e_top r) i + nthq (e_bot r) i == nthq feed i.
+Proof.
+  intros E LL Ll C r OK i.
+  pose proof (eff_mix_lemma rho eq extra feed top0 bot0 topchem eff rowL rowl E LL Ll OK i) as X.
+  cbv zeta in X. fold r in X. rewrite X.
+  specialize (C i). destruct (qltb eff 1); [rewrite C; ring|exact C].
+Qed.
+
+Lemma lle_nonneg_lemma rho eq extra feed top0 bot0 topchem eff rowL rowl :
+  eq feed = (rowL, rowl) -> length rowL = length feed -> length rowl = length feed ->
+  (forall i, 0 <= nthq rowL i) -> (forall i, 0 <= nthq rowl i) -> (forall i, 0 <= nthq feed i) ->
+  0 <= eff ->
+  let r := lle_wrap rho eq extra feed top0 bot0 topchem eff in
+  e_err r = None ->
+  forall i, 0 <= nthq (e_top r) i /\ 0 <= nthq (e_bot r) i.
+Proof.
+  intros E LL Ll NL Nl NF EF. cbv zeta. unfold lle_wrap. rewrite E.
+  destruct (negb (Nat.eqb extra 0)); cbn [e_err]; [discriminate|].
+  intros _ i. specialize (NL i). specialize (Nl i). specialize (NF i).
+  destruct (top_is_l rho rowL rowl topchem); destruct (qltb eff 1) eqn:E1; cbn [e_top e_bot];
+    try (split; assumption);
+    apply qltb_true in E1;
+    rewrite !nthq_vadd by (rewrite !vscale_length; congruence); rewrite !nthq_vscale;
+    (assert (H2 : 0 <= (1 - eff) / 2) by (apply Qle_shift_div_l; lra)); split; nra.
+Qed.
+
+(* without mixing each outlet is one of the two phases, the other outlet the other phase *)
+Lemma lle_routes_lemma rho eq extra feed top0 bot0 topchem eff rowL rowl :
+  eq feed = (rowL, rowl) -> 1 <= eff ->
+  let r := lle_wrap rho eq extra feed top0 bot0 topchem eff in
+  e_err r = None ->
+  (e_top r = rowL /\ e_bot r = rowl) \/ (e_top r = rowl /\ e_bot r = rowL).
+Proof.
+  intros E EF. cbv zeta. unfold lle_wrap. rewrite E.
+  destruct (negb (Nat.eqb extra 0)); cbn [e_err]; [discriminate|].
+  destruct (qltb eff 1) eqn:E1; [apply qltb_true in E1; lra|].
+  intros _. destruct (top_is_l rho rowL rowl topchem); cbn [e_top e_bot]; auto.
+Qed.
+
+Lemma vle_routes_lemma eq feed rowg rowl :
+  eq feed = (rowg, rowl) -> vle_wrap eq feed = (rowg, rowl).
+Proof. intros E. unfold vle_wrap. rewrite E. reflexivity. Qed.
+
+(* ================================================================ material_balance *)
+
+Lemma colsum_scale_zip x vin i : length x = length vin ->
+  colsum (scale_zip x vin) i == vdot (map (fun s => nthq s i) vin) x.
+Proof.
+  revert vin; induction x as [|f x IH]; intros [|s vin] L; simpl in *; try (exfalso; discriminate L).
+  - unfold vdot; simpl; lra.
+  - rewrite vdot_cons, nthq_vscale, IH by lia. lra.
+Qed.
+
+Lemma nthq_matvec_row ids vin x k : (k < length ids)%nat ->
+  nthq (matvec (mb_matrix ids vin) x) k = vdot (map (fun s => nthq s (nth k ids 0%nat)) vin) x.
+Proof.
+  unfold matvec, mb_matrix. revert k; induction ids as [|i ids IH]; intros [|k] H; simpl in *; try lia.
+  - reflexivity.
+  - rewrite nthq_consS. apply IH. lia.
+Qed.
+
+Lemma colsum_gather ids (cin : list vec) k : (k < length ids)%nat ->
+  nthq (vsum (length ids) (map (fun s => gather s ids) cin)) k == colsum cin (nth k ids 0%nat).
+Proof.
+  intros H. rewrite nthq_vsum.
+  - induction cin as [|s cin IH]; simpl; [lra|]. rewrite nthq_gather by exact H. rewrite IH. lra.
+  - intros v Hv. apply in_map_iff in Hv. destruct Hv as (s & <- & _). apply gather_length.
+Qed.
+
+Lemma balance_flow_lemma solve n ids vin cin cout bal x vin' :
+  (forall v, In v cout -> length v = n) ->
+  material_balance solve n ids vin cin cout bal = Ok vin' ->
+  solve (mb_matrix ids vin) (mb_rhs n ids cin cout) = Ok x ->
+  length x = length vin ->
+  (forall k, nthq (matvec (mb_matrix ids vin) x) k == nthq (mb_rhs n ids cin cout) k) ->   (* A x = b *)
+  vin' = scale_zip x vin /\
+  forall k, (k < length ids)%nat ->
+    colsum vin' (nth k ids 0%nat) + colsum cin (nth k ids 0%nat) - colsum cout (nth k ids 0%nat) == 0.
+Proof.
+  intros LO H S LX AX. unfold material_balance in H.
+  destruct vin as [|s0 vin0] eqn:EV; [discriminate|]. rewrite <- EV in *.
+  destruct cout as [|o0 cout0] eqn:EO; [discriminate|]. rewrite <- EO in *.
+  destruct (negb bal); [discriminate|]. rewrite S in H. simpl in H. inversion H; subst vin'. clear H.
+  split; [reflexivity|]. intros k Hk. specialize (AX k).
+  rewrite nthq_matvec_row in AX by exact Hk.
+  rewrite colsum_scale_zip by exact LX. rewrite AX.
+  unfold mb_rhs. rewrite nthq_vsub.
+  - rewrite nthq_gather by exact Hk. rewrite nthq_vsum by exact LO. rewrite colsum_gather by exact Hk. lra.
+  - rewrite gather_length. rewrite vsum_length; [reflexivity|].
+    intros v Hv. apply in_map_iff in Hv. destruct Hv as (s & <- & _). apply gather_length.
+Qed.
+
+Lemma scale_zip_nth x vin j : length x = length vin -> (j < length vin)%nat ->
+  nth j (scale_zip x vin) [] = vscale (nthq x j) (nth j vin []).
+Proof.
+  revert vin j; induction x as [|f x IH]; intros [|s vin] j L H; simpl in *; try lia.
+  destruct j as [|j]; [reflexivity|]. rewrite nthq_consS. apply IH; lia.
+Qed.
+
+(* ================================================================ binary_phase_fraction closed form *)
+
+Lemma as_valid_fraction_range x : 0 <= as_valid_fraction x <= 1.
+Proof.
+  unfold as_valid_fraction. destruct (qltb x 0) eqn:E1; [lra|]. apply qltb_false in E1.
+  destruct (qltb 1 x) eqn:E2; [lra|]. apply qltb_false in E2. lra.
+Qed.
+
+(* the two-component closed form is the root of the Rachford-Rice equation *)
+Lemma rr2_root_lemma z1 z2 K1 K2 :
+  ~ (z1 + z2) * (K1 - 1) * (K2 - 1) == 0 ->
+  let phi := compute_phase_fraction_2N z1 z2 K1 K2 in
+  ~ 1 + phi * (K1 - 1) == 0 -> ~ 1 + phi * (K2 - 1) == 0 ->
+  rr_objective phi [z1; z2] [K1; K2] 0 0 == 0.
+Proof.
+  intros D phi D1 D2. unfold rr_objective. simpl.
+  assert (A1 : ~ z1 + z2 == 0) by (intros E; apply D; rewrite E; ring).
+  assert (A2 : ~ K1 - 1 == 0) by (intros E; apply D; rewrite E; ring).
+  assert (A3 : ~ K2 - 1 == 0) by (intros E; apply D; rewrite E; ring).
+  assert (P : phi == - (z1 * (K1 - 1) + z2 * (K2 - 1)) / ((z1 + z2) * (K1 - 1) * (K2 - 1))).
+  { unfold phi, compute_phase_fraction_2N. field.
+    repeat split; first [assumption | (intros E; apply D; rewrite <- E; ring)]. }
+  assert (X : z1 * (K1 - 1) * (1 + phi * (K2 - 1)) + z2 * (K2 - 1) * (1 + phi * (K1 - 1)) == 0).
+  { rewrite P. field. repeat split; assumption. }
+  assert (G : - z1 * (K1 - 1) / (1 + phi * (K1 - 1)) + (- z2 * (K2 - 1) / (1 + phi * (K2 - 1)) + 0) - 0 + 0
+              == - (z1 * (K1 - 1) * (1 + phi * (K2 - 1)) + z2 * (K2 - 1) * (1 + phi * (K1 - 1)))
+                 / ((1 + phi * (K1 - 1)) * (1 + phi * (K2 - 1)))).
+  { field. split; assumption. }
+  rewrite G, X. field. split; assumption.
+Qed.
